@@ -166,8 +166,9 @@ where
     match state.connection.receive().await {
         Ok(None) => return Err(()),
         Ok(Some(res)) => match res.into_single_frame() {
-            Ok(f) => {
-                if let Some(subsystem) = Subsystem::from_frame(f) {
+            Ok(mut f) => {
+                // A single reply can report several changed subsystems
+                while let Some(subsystem) = Subsystem::from_frame(&mut f) {
                     debug!(?subsystem, "state change");
                     let _ = state
                         .events
@@ -220,8 +221,9 @@ where
     match response {
         Ok(Some(res)) => {
             match res.into_single_frame() {
-                Ok(f) => {
-                    if let Some(subsystem) = Subsystem::from_frame(f) {
+                Ok(mut f) => {
+                    // A single reply can report several changed subsystems
+                    while let Some(subsystem) = Subsystem::from_frame(&mut f) {
                         debug!(?subsystem, "state change");
                         let _ = state
                             .events
